@@ -130,6 +130,14 @@ def generate(ctx):
     for cls in ("QIF", "Izhikevich"):
         for off in (0.0, 2.0 ** -40, -(2.0 ** -40)):
             yield {"part": "tie", "cls": cls, "offset": off, "dtype": "float64"}
+    # the same for the linear models: voltage placed on the threshold and driven with the current that makes the threshold a
+    # fixed point of the (exact) linear update, all terms exactly representable; also on a threshold moved by adaptation
+    for cls in ("LIF", "GLIF1", "ALIF", "GLIF2"):
+        for off in (0.0, 2.0 ** -30, -(2.0 ** -30)):
+            for adapted in ((False, True) if cls in ("ALIF", "GLIF2") else (False,)):
+                for dtype in ("float64", "float32"):
+                    yield {"part": "tie", "cls": cls, "offset": off if dtype == "float64" else off * 2.0 ** 14, "dtype": dtype,
+                           "adapted": adapted, "B": 1 + (cls == "GLIF2")}
 
 
 # ------------------------------------------------------------------------------------------
@@ -422,7 +430,47 @@ def run_case(ctx, desc):
         last_spike = np.where(sp, t, last_spike)
 
 
+def _tie_linear(ctx, desc):
+    cls, off = desc["cls"], desc["offset"]
+    tdt = torch.float64 if desc["dtype"] == "float64" else torch.float32
+    B = desc.get("B", 1)
+    if cls in ("LIF", "GLIF1"):
+        kw = dict(rest_v=-64.0, reset_v=-70.0, thresh_v=-48.0, refrac_t=2.0, time_constant=8.0, resistance=2.0)
+    elif cls == "ALIF":
+        kw = dict(rest_v=-64.0, reset_v=-70.0, thresh_eq_v=-48.0, refrac_t=2.0, tc_membrane=8.0, tc_adaptation=[50.0],
+                  spike_increment=[2.0], resistance=2.0)
+    else:
+        kw = dict(rest_v=-64.0, reset_v_add=1.0, reset_v_mul=0.25, thresh_eq_v=-48.0, refrac_t=2.0, tc_membrane=8.0,
+                  rc_adaptation=[0.05], spike_increment=[2.0], resistance=2.0)
+    n = getattr(neural, cls)((3,), 1.0, batch_size=B, **kw)
+    n.to(tdt)
+    n.eval()                                   # adaptations are not learned during the probe
+    theta = 0.0
+    if desc.get("adapted"):
+        theta = 4.0                            # threshold -44 = equilibrium + adaptation, exactly representable
+        n.threshold_adaptation = torch.full_like(n.threshold_adaptation, theta)
+    thr = -48.0 + theta
+    n.voltage = torch.full_like(n.voltage, thr)
+    # R * I = thr - rest exactly, so (v - rest - R I) = 0 and the update returns rest + R I = thr bit for bit; a current
+    # off by `off` lands on the corresponding side of the threshold
+    I = torch.full((B, 3), (thr + 64.0) / 2.0 + off, dtype=tdt)
+    s = n(I)
+    exp = off >= 0
+    ctx.case(f"tie/{cls}/off{'0' if off == 0 else ('+' if off > 0 else '-')}/{desc['dtype']}/adapted{int(bool(desc.get('adapted')))}")
+    ctx.count("exact_ties_checked")
+    ctx.count("exact_ties_checked.linear_models")
+    if bool(s.all()) != exp or bool(s.any()) != exp:
+        ctx.violation(f"{cls}.tie.{'at_threshold_must_spike' if off == 0 else 'one_step_off_threshold'}",
+                      f"integrated voltage = threshold{'+' if off > 0 else ''}{off if off else ''}"
+                      f"{' (adapted threshold)' if desc.get('adapted') else ''}: spikes={s.tolist()}", desc)
+
+
 def _tie(ctx, desc):
+    if desc["cls"] in ("LIF", "GLIF1", "ALIF", "GLIF2"):
+        try:
+            return _tie_linear(ctx, desc)
+        except Exception as e:  # noqa: BLE001
+            return ctx.violation(ctx.exc_signature(e, f"tie.{desc['cls']}"), f"{type(e).__name__}: {str(e)[:160]}", desc)
     cls, off = desc["cls"], desc["offset"]
     kw = dict(rest_v=-2.0, crit_v=-1.0, affinity=1.0, reset_v=-3.0, thresh_v=1.0, refrac_t=2.0, resistance=1.0)
     if cls == "QIF":
